@@ -4,9 +4,13 @@
 //   output : {"beh":i,"obs":[{"err":0|1,"mem":..,"max":..,"psz":[pool sizes]},...],"end":{"mem":..}}
 // Buffers are identified by the spec's buffer number; a buffer is held through the memory handles of
 // its views.  No model here: action names are mapped to API calls.
+// With HR_LEAKCHECK=k LeakSanitizer looks for unreachable heap blocks after every k-th behaviour (everything
+// released at that point); a line {"leak":1,"upto":i} is written when it finds any.
 #include "replay_core.hpp"
 #include <occa.hpp>
 #include <map>
+
+extern "C" int __lsan_do_recoverable_leak_check(void) __attribute__((weak));
 
 static std::string modeProps = "{mode: 'Serial'}";
 static char wrapArea[4096];
@@ -93,6 +97,7 @@ int main(int argc, char **argv) {
   rc::init(argc, argv);
   if (getenv("HR_MODE")) modeProps = std::string("{mode: '") + getenv("HR_MODE") + "'}";
   std::string line;
+  long leakEvery = getenv("HR_LEAKCHECK") ? atol(getenv("HR_LEAKCHECK")) : 0, sinceCheck = 0;
   while (rc::next(line)) {
     rc::watchdog(300);
     mj::Value b = mj::parse(line);
@@ -121,6 +126,11 @@ int main(int argc, char **argv) {
       for (void *p : S.userOwned) ::free(p);
     }
     rc::emit(out);
+    if (leakEvery > 0 && ++sinceCheck >= leakEvery && &__lsan_do_recoverable_leak_check) {
+      sinceCheck = 0;
+      if (__lsan_do_recoverable_leak_check())
+        rc::emit("{\"leak\":1,\"upto\":" + std::to_string(rc::cur_beh) + "}");
+    }
   }
   return 0;
 }
